@@ -267,6 +267,9 @@ func dstarOpts(s *sigT) []*dstarOpt {
 	}
 	var out []*dstarOpt
 	for _, sub := range subsets(uni, 401) {
+		if len(sub) > 3 { // every ** dict of up to 3 keys
+			continue
+		}
 		d := &dstarOpt{}
 		for _, e := range sub {
 			d.Items = append(d.Items, dItem{e.K, true, e.V})
@@ -786,6 +789,16 @@ func bindMain(argv []string) {
 	hx.Flush()
 }
 
+// a panic inside the interpreter is an observation ("other:panic ..."), not the end of the harness
+func safeCall(thread *starlark.Thread, fn starlark.Value, args starlark.Tuple, kwargs []starlark.Tuple) (v starlark.Value, err error) {
+	defer func() {
+		if r := recover(); r != nil {
+			v, err = nil, fmt.Errorf("panic: %v", r)
+		}
+	}()
+	return starlark.Call(thread, fn, args, kwargs)
+}
+
 func runSig(idx int, s *sigT, sites []*siteT, stars []*starOpt, ds []*dstarOpt, seed uint64, pcoq, ppy uint64) *sigResult {
 	res := &sigResult{dist: map[string]int{}}
 	if len(sites) == 0 {
@@ -834,7 +847,7 @@ func runSig(idx int, s *sigT, sites []*siteT, stars []*starOpt, ds []*dstarOpt, 
 					D = ds[di]
 					args[1] = dVals[di]
 				}
-				v, err := starlark.Call(thread, fn, args, nil)
+				v, err := safeCall(thread, fn, args, nil)
 				obs := observe(v, err)
 				spec, classes := specBind(s, st, S, D)
 				npos := st.NPos
